@@ -458,7 +458,8 @@ class ID3Tags(DictProxy, Tags):
                 if d.month and d.day and "TDAT" not in self:
                     self.add(TDAT(encoding=f.encoding,
                                   text="%02d%02d" % (d.day, d.month)))
-                if d.hour and d.minute and "TIME" not in self:
+                if d.hour is not None and d.minute is not None and \
+                        "TIME" not in self:
                     self.add(TIME(encoding=f.encoding,
                                   text="%02d%02d" % (d.hour, d.minute)))
 
